@@ -34,8 +34,8 @@ CLAIMED = {
          "yield = 1 - omega - sum CK (by name); net total = total - CK-type transitions (by name); rate = raw / net total of the transition's own shell; CK-type unavailable",
          "glue loop in pr_data.c main not under contract (A-gen); [0,1] bounds not decided"),
  "C07": ("other", "bounded lemma harnesses on the real outer CompoundParser (scanner replaced by its assumed contract, setlocale by a ghost-state model), the real add_compound_data, and the real scanner CompoundParserSimple on fixed formula shapes with symbolic atomic numbers and subscripts (libc by executable contracts)",
-         "PARTIAL: composition stage - element order and counts as scanned, positive molar mass, fractions are numbers, NULL iff exactly one error, elements without atomic weight rejected, scanner runs under the C locale and the caller's locale is restored, no leak; add_compound_data returns exactly the ascending union; scanner on 13 (thorough: 15) formula shapes incl. nested and merged groups, atom counts = algebraic expansion for the written subscripts with symbolic (possibly coinciding) elements; accepted iff symbols known and subscripts non-zero, elements strictly ascending without duplicates = the formula's symbols, bsearch only on ascending lists",
-         "NOT decided: arbitrary strings (grammar, rejection classes), atom counts outside the shape list or for symbolic subscripts, invariances, bit-exact molar mass / fractions and wA*fA + wB*fB (attempted, thorough tier); bounded to <= 3 / 5 elements, 1-2 x 1-2 (1-3 x 1-3) for add_compound_data, the fixed shape list"),
+         "PARTIAL: composition stage - element order and counts as scanned, molar mass / atom total bit-exactly the sums, mass fraction bit-exactly count x atomic weight / molar mass, positive molar mass, fractions are numbers, NULL iff exactly one error, elements without atomic weight rejected, scanner runs under the C locale and the caller's locale is restored, no leak; add_compound_data returns exactly the ascending union; scanner on 13 (thorough: 15) formula shapes incl. nested and merged groups, atom counts = algebraic expansion for the written subscripts with symbolic (possibly coinciding) elements; accepted iff symbols known and subscripts non-zero, elements strictly ascending without duplicates = the formula's symbols, bsearch only on ascending lists",
+         "NOT decided: arbitrary strings (grammar, rejection classes), atom counts outside the shape list or for symbolic subscripts, invariances, fractions summing to 1, wA*fA + wB*fB of add_compound_data (attempted, thorough tier); bounded to <= 3 / 5 elements, 1-2 x 1-2 (1-3 x 1-3) for add_compound_data, the fixed shape list"),
  "C13": ("other", "UF-leaf congruence lemmas (Bragg angle, Q, atomic factors) + bounded structure-factor lemmas on the real Crystal_F_H_StructureFactor_Partial with constant flags and atomic numbers",
          "PARTIAL: error protocol incl. 'no reflection => error, never NaN', NULL crystal, atomic numbers outside the tables, invalid flags; Bragg angle = asin(hc/E / 2d); Q = E sin(rel theta)/hc; structure factor = explicit sum over atoms with the reported atomic factors (per-element cache, flag semantics)",
          "NOT decided: Bragg's law, d-spacing invariances, reciprocal-metric agreement, Friedel's law, flag additivity, (0,0,0) Debye reduction (real algebra over libm); bounded to 2 atoms"),
